@@ -12,7 +12,7 @@ add("C06", "fault_enumeration",
     "fault-free dry run and the connection is then lost after EVERY byte offset k (EOF; persistent read error: plain, ETIMEDOUT- and ECONNRESET-style *net.OpError), at every "
     "write j, and while idle (also right after unsolicited output that ends in a prompt); a monitor "
     "checks prompt error return, no truncated success (result must equal the complete dry-run result), failure of the following operation, and that no "
-    "goroutine panics (worker-process isolation); finally the session is closed (hang/panic only). Exhaustive over k for the listed scenarios and segmentations; nothing beyond them.",
+    "goroutine panics (worker-process isolation); finally the session is closed (hang/panic only). Every k is enumerated for the listed short exchanges and segmentations (the two ~150 kB replies are sampled); nothing beyond them.",
     "DESIGN.md §3 C06", "fault injection at every stream offset of real-library sessions over a causal transport model; outcome monitor + process-level panic detection")
 
 add("C15", "exploration",
